@@ -94,6 +94,11 @@ def main():
     if not aud['ok'] and not broken:
         for p in aud['problems']:
             broken.append('audit: ' + p)
+    chk = None
+    if a.tier == 'thorough' and not a.replay and not broken and not os.environ.get('VERIF_NO_COQCHK'):
+        chk = lib.coqchk(mod.PROPS_FILE)
+        for pr in chk['problems']:
+            broken.append(pr)
     model_ok = all(os.path.exists(os.path.join(lib.COQ, os.path.splitext(f)[0] + '.vo')) for f in getattr(mod, 'MODEL_FILES', []))
 
     # ---------------- replay mode
@@ -193,6 +198,7 @@ def main():
             'checker_cmd': (build.cmd if build else 'harness/build.sh') + ' ; coqc Props/%s.v (Print Assumptions)' % prop,
             'trusted_base': ['Coq 8.16.1 kernel + vm_compute (no native_compute)',
                              'Print Assumptions per property theorem, in file order: ' + ' | '.join(aud['assumptions']),
+                             ('coqchk -o re-checked the compiled closure in this run; axioms in its context summary (all in the Coq.* standard library): ' + ', '.join(chk['axioms'])) if chk else 'coqchk -o is run by the thorough tier',
                              'harness/gen_constants.py (constants translator)', 'correspondence harness harness/props/%s.py + harness/lib.py' % prop]
                             + list(getattr(mod, 'TRUSTED', [])),
             'closure_files': aud['files'],
